@@ -11,7 +11,8 @@ Open Scope N_scope.
 (* stream.rs / stream_compat.rs / either.rs: one-to-one relays of the wrapped source:
    the model is [src_m] itself (Stream::poll_next <-> PullStep via into_poll). *)
 
-(* stream_ready.rs: Pending from the stream is reported as Ended (non-blocking batch) *)
+(* stream_ready.rs: Pending from the stream is reported as Ended (non-blocking batch);
+   size_hint = (0, stream upper) since repair 037f9db078c *)
 Section StreamReady.
   Variable A : Type.
   Variable uh : script A -> hintT.        (* Stream::size_hint *)
@@ -21,7 +22,9 @@ Section StreamReady.
     | (Pending, l') => (Ended, l')
     | (Ended, l') => (Ended, l')
     end.
-  Definition sready_m : machine A := {| St := script A; pull1 := sready_pull; hint := uh |}.
+  Definition sready_hint (l : script A) : hintT := (0, snd (uh l)).
+  Definition sready_m : machine A :=
+    {| St := script A; pull1 := sready_pull; hint := sready_hint |}.
 End StreamReady.
 
 (* items up to the first Pend or End *)
@@ -89,7 +92,14 @@ Section FilterMapAsync.
     | (Some (O, None), l) => fma_fetch l
     | (None, l) => fma_fetch l
     end.
-  Definition fma_hint (st : fma_st) : hintT := (0, snd (uh (snd st))).
+  (* since repair b3ec35f8b2d the item held by the in-flight future is counted:
+     upper.and_then(|u| u.checked_add(1)) while `current` is Some *)
+  Definition fma_hint (st : fma_st) : hintT :=
+    let upper := snd (uh (snd st)) in
+    (0, match fst st with
+        | Some _ => match upper with Some u => chk_add u 1 | None => None end
+        | None => upper
+        end).
   Definition fma_m : machine B := {| St := fma_st; pull1 := fma_pull; hint := fma_hint |}.
 End FilterMapAsync.
 
